@@ -78,6 +78,9 @@ func (a *MempoolAPI) Utxos(address string) ([]Utxo, error) {
 	}
 	sort.Slice(utxos, func(i int, j int) bool {
 		if utxos[i].Status.BlockTime == utxos[j].Status.BlockTime {
+			if utxos[i].TxID == utxos[j].TxID {
+				return utxos[i].Vout < utxos[j].Vout
+			}
 			return utxos[i].TxID < utxos[j].TxID
 		} else {
 			return utxos[i].Status.BlockTime < utxos[j].Status.BlockTime
